@@ -204,16 +204,17 @@ structure ConnRes where
   notifs : List Notif
 deriving Repr
 
-/-- mirrors lib.rs ChainNotifier::connect_blocks over `connected_blocks.drain(..).rev()` (ascending):
-    fetch, notify, cache, advance `new_tip`; a fetch error stops and reports `new_tip`. -/
+/-- mirrors lib.rs ChainNotifier::connect_blocks over the translated iteration order (`connectOrder`, applied by the caller):
+    fetch, notify with the translated `connectHeight`, cache, advance `new_tip` (`connectNewTip`); a fetch error stops and
+    reports `new_tip` (statement order whole-body pinned). -/
 def connectBlocks (s : Source) : List Hdr → Hdr → Cache → Nat → ConnRes
   | [], tip, c, req => ⟨true, tip, c, req, []⟩
   | b :: rest, tip, c, req =>
     match s.getBlock req b with
     | .error _ => ⟨false, tip, c, req + 1, []⟩
     | .ok _ =>
-      let r := connectBlocks s rest b (cacheBlockConnected c b) (req + 1)
-      { r with notifs := .connected b.hash b.height :: r.notifs }
+      let r := connectBlocks s rest (connectNewTip b) (cacheBlockConnected c b) (req + 1)
+      { r with notifs := .connected b.hash (connectHeight b) :: r.notifs }
 
 /-- mirrors lib.rs ChainNotifier::disconnect_blocks(fork_point): the listener's `blocks_disconnected(BlockLocator)` with the
     translated locator arguments (`disconnectLocator`, Generated/ChainSync.lean) -/
@@ -240,7 +241,7 @@ def synchronizeListener (s : Source) (c : Cache) (req : Nat) (new old : Hdr) : S
   | .ok (d, req1) =>
     let disc := syncDisconnects d.common old
     let c1 := if disc then cacheBlocksDisconnected c false d.common else c
-    let r := connectBlocks s d.connected.reverse d.common c1 req1
+    let r := connectBlocks s (connectOrder d.connected) d.common c1 req1
     let ns := (if disc then [discNotif d.common] else []) ++ r.notifs
     ⟨if r.ok then .ok else .errAt r.tip, r.cache, r.req, ns⟩
 
@@ -363,7 +364,7 @@ def fetchAll (s : Source) : List Hdr → Nat → Bool × Nat
     ((match s.getBlock req b with | .ok _ => true | .error _ => false) && ok, r)
 
 def connectedFor (lh : Nat) (chunk : List Hdr) : List Notif :=
-  (chunk.filter (fun b => initDelivers b.height lh)).map (fun b => Notif.connected b.hash b.height)
+  (chunk.filter (fun b => initDelivers (batchHeight b) lh)).map (fun b => Notif.connected b.hash (batchHeight b))
 
 /-- second loop of synchronize_listeners over `asc` = most_connected_blocks reversed, in batches of
     `k`: a batch is fetched completely, then cached and delivered; a failed fetch returns `Err` before
@@ -405,7 +406,7 @@ def synchronizeListeners (s : Source) (ls : List Locator) : InitOut :=
       let p1 := phase1 s best ls [] 2 []
       if !p1.ok then ⟨.error .source, p1.per.map (·.2), p1.req⟩
       else
-        let asc := p1.most.reverse
+        let asc := batchOrder p1.most
         let (ok, c, r, delivered) := phase2 s MAX_BLOCKS_AT_ONCE asc.length asc p1.cache p1.req
         let ns := p1.per.map (fun p => p.2 ++ p.1.flatMap (fun lh => connectedFor lh delivered))
         if ok then ⟨.ok (best, c), ns, r⟩ else ⟨.error .source, ns, r⟩
